@@ -36,6 +36,8 @@ type Opts struct {
 	// RemoteLoader registers a remote ResourceLoader that accepts nothing (its presence alone
 	// switches the loader to the code paths used when remote loaders are configured).
 	RemoteLoader bool `json:"remote_loader,omitempty"`
+	// NilInterpolate clears Options.Interpolate (the loader's file reader tolerates a nil value)
+	NilInterpolate bool `json:"nil_interpolate,omitempty"`
 	// Name "" => project name "verif" set imperatively; "-" => not set at all.
 	Name string `json:"name,omitempty"`
 }
@@ -59,6 +61,7 @@ func (o Opts) String() string {
 	add(o.SkipDefaultValues, "SkipDefaultValues")
 	add(o.DiscardEnvFiles, "DiscardEnvFiles")
 	add(o.RemoteLoader, "RemoteLoader")
+	add(o.NilInterpolate, "NilInterpolate")
 	if len(p) == 0 {
 		return "default"
 	}
@@ -135,6 +138,9 @@ func (o Opts) OptionFuncs() []func(*loader.Options) {
 		}
 		if o.DiscardEnvFiles {
 			loader.WithDiscardEnvFiles(lo)
+		}
+		if o.NilInterpolate {
+			lo.Interpolate = nil
 		}
 		switch o.Name {
 		case "":
